@@ -94,6 +94,18 @@ def run(P, R, tier):
     recv = astq.assignments(pp, c.func.value.id) if isinstance(c.func.value, ast.Name) else []
     okr = any(d[0] == 'expr' and isinstance(d[1], ast.Call) and astq.is_call_to(P, pp, d[1], wh) and d[1].args and norm(d[1].args[0]) == pp.params[2] for d in recv)
     R.check(okr, 'C09.b', pp, c, 'the shuffled frame is the one with the distance column, computed with the caller\'s p', 'set_index is not applied to self._with_hilbert_distance_column(p)')
+    # C09.d (seed S9: dask `set_index(name)` returns the frame UNCHANGED when its index already has that name): a frame that is already packed
+    # (index named like the distance column) must lose that index name before set_index, otherwise the old distances stay and the new column is left over
+    R.assume('S9: dask DataFrame.set_index(<name>) returns self when self.index.name == <name>')
+    guards = [g for g in astq.own_nodes(pp, ast.If) if isinstance(g.test, ast.Compare) and len(g.test.ops) == 1 and isinstance(g.test.ops[0], ast.Eq)
+              and any('.index.name' in norm(x) for x in (g.test.left, g.test.comparators[0])) and any(astq.const_str(x) == name for x in (g.test.left, g.test.comparators[0]))
+              and any(isinstance(x, ast.Call) and isinstance(x.func, ast.Attribute) and x.func.attr in ('reset_index', 'rename', 'rename_axis') for b in g.body for x in ast.walk(b))]
+    Cg = cfgmod.build(pp.node)
+    sstmt = next((a for a in walk_own(pp.node) if isinstance(a, (ast.Assign, ast.Expr, ast.Return)) and any(x is c for x in ast.walk(a))), None)
+    okg = bool(guards) and sstmt is not None and Cg.every_path_passes(Cg.ENTRY, Cg.node(sstmt), [Cg.node(g) for g in guards])
+    R.check(okg, 'C09.d', pp, c, f'a frame whose index is already named {name!r} has that index dropped/renamed before set_index({name!r})',
+            f'set_index({name!r}) is reached without handling a frame whose index is already named {name!r} (an already packed frame, or a packed dataset read back): dask then returns the frame '
+            'unchanged: rows keep the OLD distances as index and the new distance column is left in the result', construct='repacking an already packed frame')
     npv, sh = astq.arg_of(c, kw='npartitions'), astq.arg_of(c, kw='shuffle_method') or astq.arg_of(c, kw='shuffle')
     R.check(npv is not None and norm(npv) == pp.params[1], 'C09.b', pp, c, 'the requested partition count reaches set_index', 'npartitions does not reach set_index')
     R.check(sh is not None and norm(sh) == pp.params[3], 'C09.b', pp, c, 'the caller\'s shuffle method reaches set_index', 'shuffle does not reach set_index', nontrivial=False)
